@@ -6,7 +6,7 @@
    [pure_ty] = the value kinds the specification names: constants and empty
    literals (no Fixed flag) and variables (Fixed at the top, no empty leaf). *)
 From Coq Require Import List Bool.
-From EvyV Require Import Base TypesSyntax Types TypesFixed TypesSpec TypesSpecProofs TypesProofs.
+From EvyV Require Import Base TypesSyntax Types TypesOld TypesSpec TypesSpecProofs TypesProofs.
 Import ListNotations.
 
 (* assignability, all types at any depth *)
@@ -45,26 +45,20 @@ Theorem C04_binop_accept_iff : forall op lt rt,
 Proof. exact binop_accept_iff. Qed.
 Print Assumptions C04_binop_accept_iff.
 
-(* … and result type (guard: left operand without untyped empty leaf, or [] + e) *)
+(* … and result type, [] * n included (left operand: the empty array literal, or no untyped empty leaf) *)
 Theorem C04_binop_result_type : forall op lt rt,
   spec_ty lt = true -> spec_ty rt = true -> validate_binary op lt rt = true ->
-  (has_empty lt = false \/ (lt = TEmptyArr /\ op = OpPlus)) ->
+  (has_empty lt = false \/ lt = TEmptyArr) ->
   OpType op (erase lt) (erase rt) (erase (binary_node_type op lt rt)).
 Proof. exact binop_result_type. Qed.
 Print Assumptions C04_binop_result_type.
 
-Theorem C04_binop_result_type_refuted :
+(* regression, about parseBinaryExpr before commit f8788c6 *)
+Theorem C04_binop_result_type_before_fix_refuted :
   exists op lt rt, spec_ty lt = true /\ spec_ty rt = true /\ validate_binary op lt rt = true /\
-    ~ OpType op (erase lt) (erase rt) (erase (binary_node_type op lt rt)).
-Proof. exact binop_result_type_refuted. Qed.
-Print Assumptions C04_binop_result_type_refuted.
-
-Theorem C04_binop_result_type_fixed : forall op lt rt,
-  spec_ty lt = true -> spec_ty rt = true -> validate_binary op lt rt = true ->
-  (has_empty lt = false \/ lt = TEmptyArr) ->
-  OpType op (erase lt) (erase rt) (erase (binary_node_type_fixed op lt rt)).
-Proof. exact binop_result_type_fixed. Qed.
-Print Assumptions C04_binop_result_type_fixed.
+    ~ OpType op (erase lt) (erase rt) (erase (binary_node_type_old op lt rt)).
+Proof. exact binop_result_type_before_fix_refuted. Qed.
+Print Assumptions C04_binop_result_type_before_fix_refuted.
 
 Theorem C04_unop_type_table : forall op t,
   spec_ty t = true -> (validate_unary op t = true <-> UnOpType op (erase t) (erase t)).
@@ -106,39 +100,60 @@ Theorem C04_infer_spec : forall t, spec_ty t = true ->
 Proof. exact infer_spec. Qed.
 Print Assumptions C04_infer_spec.
 
-(* strictest common type: constants and empty literals, any number, any depth *)
-Theorem C04_combine_const_strictest : forall ts,
-  ts <> [] -> Forall (fun t => const_ty t = true) ts ->
-  exists r, combine ts = Some r /\ const_ty r = true /\ Strictest (map abs ts) (erase r).
-Proof. exact combine_const_strictest. Qed.
-Print Assumptions C04_combine_const_strictest.
+(* strictest common type: variables, constants and empty literals, any number, any types, any depth *)
+Theorem C04_combine_strictest : forall ts,
+  ts <> [] -> Forall (fun t => pure_ty t = true) ts ->
+  exists r, combine ts = Some r /\ pure_ty r = true /\ Strictest (map abs ts) (erase r).
+Proof. exact combine_strictest. Qed.
+Print Assumptions C04_combine_strictest.
 
-Theorem C04_combine_const_perm : forall ts ts' r r',
+(* every element is accepted by the element type (what wrapAny relies on) *)
+Theorem C04_combine_upper_bound : forall ts r,
+  Forall (fun t => pure_ty t = true) ts -> combine ts = Some r ->
+  forall t, In t ts -> accepts r t = true.
+Proof. exact combine_upper_bound. Qed.
+Print Assumptions C04_combine_upper_bound.
+
+(* independent of the order of the elements *)
+Theorem C04_combine_perm : forall ts ts' r r',
   (forall t, In t ts <-> In t ts') ->
-  Forall (fun t => const_ty t = true) ts -> Forall (fun t => const_ty t = true) ts' ->
+  Forall (fun t => pure_ty t = true) ts -> Forall (fun t => pure_ty t = true) ts' ->
   combine ts = Some r -> combine ts' = Some r' -> erase r = erase r'.
-Proof. exact combine_const_perm. Qed.
-Print Assumptions C04_combine_const_perm.
+Proof. exact combine_perm. Qed.
+Print Assumptions C04_combine_perm.
 
-(* with a variable among the elements: REFUTED on the unchanged tree *)
-Theorem C04_combine_strictest_refuted :
-  exists ts r, Forall (fun t => pure_ty t = true) ts /\ combine ts = Some r /\
+(* regression, about combineTypes before commit 0e214ac *)
+Theorem C04_combine_strictest_before_fix_refuted :
+  exists ts r, Forall (fun t => pure_ty t = true) ts /\ combine_old ts = Some r /\
     exists t, In t ts /\ accepts r t = false.
-Proof. exact combine_strictest_refuted. Qed.
-Print Assumptions C04_combine_strictest_refuted.
+Proof. exact combine_strictest_before_fix_refuted. Qed.
+Print Assumptions C04_combine_strictest_before_fix_refuted.
 
-Theorem C04_combine_perm_refuted :
+Theorem C04_combine_perm_before_fix_refuted :
   exists ts ts' r r', (forall t, In t ts <-> In t ts') /\
     Forall (fun t => pure_ty t = true) ts /\
-    combine ts = Some r /\ combine ts' = Some r' /\ erase r <> erase r'.
-Proof. exact combine_perm_refuted. Qed.
-Print Assumptions C04_combine_perm_refuted.
+    combine_old ts = Some r /\ combine_old ts' = Some r' /\ erase r <> erase r'.
+Proof. exact combine_perm_before_fix_refuted. Qed.
+Print Assumptions C04_combine_perm_before_fix_refuted.
 
-Theorem C04_combine_not_strictest_refuted :
-  exists ts r, Forall (fun t => pure_ty t = true) ts /\ combine ts = Some r /\
+Theorem C04_combine_not_strictest_before_fix_refuted :
+  exists ts r, Forall (fun t => pure_ty t = true) ts /\ combine_old ts = Some r /\
     ~ Strictest (map abs ts) (erase r).
-Proof. exact combine_not_strictest_refuted. Qed.
-Print Assumptions C04_combine_not_strictest_refuted.
+Proof. exact combine_not_strictest_before_fix_refuted. Qed.
+Print Assumptions C04_combine_not_strictest_before_fix_refuted.
+
+(* wrapAny: still not total on the current tree (remaining genuine defect) *)
+Theorem C04_wrap_total_refuted :
+  exists e n target, tc e = ONode n false /\ accepts target (node_type n) = true /\ wrap_any n target = None.
+Proof. exact wrap_total_refuted. Qed.
+Print Assumptions C04_wrap_total_refuted.
+
+(* the part that holds: values of rigid type (basic, any, variables, anything Fixed) *)
+Theorem C04_wrap_total_rigid_partial : forall t target,
+  rigid t = true -> has_empty t = false -> has_generic target = false \/ is_generic target = true ->
+  accepts target t = true -> exists n', wrap_any (NLeaf t) target = Some n'.
+Proof. exact wrap_total_rigid. Qed.
+Print Assumptions C04_wrap_total_rigid_partial.
 
 (* the specification's own function computes the Strictest type, which is unique *)
 Theorem C04_spec_strictest_sound : forall els e, strictest els = Some e -> Strictest els (snd e).
@@ -173,16 +188,27 @@ Example C04_ex_ops :
   validate_binary OpLt TBool TBool = false.
 Proof. vm_compute. repeat split; reflexivity. Qed.
 
-(* the witnesses of the _refuted theorems, on the expression-level model: the
-   programs the harness replays on the implementation *)
-Example C04_ex_defect_combine_panics :      (* x := [1] ; arr := [[2] x ["a"]] *)
-  check CDecl (EArr [EArr [ELitNum]; EVar (SArr SNum); EArr [ELitStr]]) = Crash.
+(* the former defect witnesses on the expression-level model of the current tree *)
+Example C04_ex_fixed_combine :               (* x := [1] ; arr := [[2] x ["a"]]  is now [](any) *)
+  check CDecl (EArr [EArr [ELitNum]; EVar (SArr SNum); EArr [ELitStr]]) = Accept (TArr true TAny) (TArr false TAny).
 Proof. vm_compute. reflexivity. Qed.
 
-Example C04_ex_defect_concat_panics :       (* a:[]any ; a = [1] + [2] *)
-  check (CAssign (SArr SAny)) (EBin OpPlus (EArr [ELitNum]) (EArr [ELitNum])) = Crash.
+Example C04_ex_fixed_concat :                (* a:[]any ; a = [1] + [2] *)
+  check (CAssign (SArr SAny)) (EBin OpPlus (EArr [ELitNum]) (EArr [ELitNum])) = Accept (TArr true TAny) (TArr true TAny).
 Proof. vm_compute. reflexivity. Qed.
 
-Example C04_ex_defect_empty_repeat :        (* x := [] * 3  is given the type num *)
-  check CDecl (EBin OpAsterisk (EArr []) ELitNum) = Accept TNum TNum.
+Example C04_ex_fixed_empty_repeat :          (* x := [] * 3  is []any *)
+  check CDecl (EBin OpAsterisk (EArr []) ELitNum) = Accept (TArr true TAny) (TArr true TAny).
 Proof. vm_compute. reflexivity. Qed.
+
+(* the remaining defect: the harness replays it on the implementation *)
+Example C04_ex_defect_call_result_panics :   (* func f:[]num … ; a:[]any ; a = f *)
+  check (CAssign (SArr SAny)) (ECall (SArr SNum)) = Crash.
+Proof. vm_compute. reflexivity. Qed.
+
+Example C04_ex_combine_pure_nonvacuous :
+  Forall (fun t => pure_ty t = true) [TArr false TNum; TArr true TNum; TEmptyArr] /\
+  combine [TArr false TNum; TArr true TNum; TEmptyArr] = Some (TArr true TNum) /\
+  combine [TArr true TAny; TArr false TNum; TArr false TString] = Some (TArr true TAny) /\
+  combine [TArr false TNum; TArr false TString; TArr true TAny] = Some (TArr true TAny).
+Proof. vm_compute. repeat split; repeat constructor. Qed.
